@@ -53,22 +53,27 @@ def run(ctx, rep):
     f = ctx.fn('rename_all_to_case', file='parser.rs')
     site = {'file': f['file'], 'line': f['line']}
     inp = f['params'][0]['name']
-    ms = [m for m in f['matches'] if any(v.startswith('lit:') for a in m['arms'] for v in a['variants'])]
-    if not ms:
-        raise core.Incomplete('rename_all_to_case: match over rule names not found')
-    arms = {}
-    for a in ms[0]['arms']:
-        for v in a['variants']:
-            if v.startswith('lit:'):
-                arms.setdefault(v[4:].strip('"'), []).append(a)
+    # dispatch table: every match arm of the function whose pattern names a string literal ("x" or Some("x")) maps that
+    # rule name to the arm's body; arms without a literal (None, _, Some(_) | None, Some(other)) are the fall-through
+    arms, plain, all_arms = {}, [], []
+    for m in f['matches']:
+        for a in m['arms']:
+            all_arms.append(a)
+            names = re.findall(r'"([^"]*)"', a['pat'])
+            for n in names:
+                arms.setdefault(n, []).append(a)
+            if not names:
+                plain.append(a)
+    if not arms:
+        raise core.Incomplete('rename_all_to_case: no match arm over rule-name literals found')
     for r in rules:
         al = arms.get(r, [])
         key = f'rule:{r}'
         if not al:
             rep.fail('E1', key, f'rename_all_to_case has no arm for serde\'s rule "{r}": names under that rule stay unchanged while serde renames them', site)
             continue
-        guarded = [a for a in ms[0]['arms'] if f'lit:"{r}"' in a['variants'] and a.get('guard')]
-        if guarded or len([a for a in ms[0]['arms'] if f'lit:"{r}"' in a['variants']]) > 1:
+        guarded = [a for a in al if a.get('guard')]
+        if guarded or len(al) > 1:
             rep.fail('E1', key, f'rule "{r}" is handled by a guarded / by several arms (`{vt.show(guarded[0]["guard"])[:70] if guarded else ""}`): for some identifiers the rule is not applied — serde applies a rule to every identifier of its position', {'file': f['file'], 'line': (guarded or al)[0]['line']})
             continue
         body = al[0]['body'].replace(' ', '')
@@ -77,12 +82,15 @@ def run(ctx, rep):
         rep.check(ok, 'E1', key, f'"{r}" → {body}', f'rule "{r}" is mapped to `{al[0]["body"][:60]}` — expected {inp}.{want[0]}() (the conversion of that name applied to the input)', {'file': f['file'], 'line': al[0]['line']})
     extra = [n for n in arms if n not in rules]
     rep.check(not extra, 'E1', 'no-extra-rules', 'no rule names beyond serde\'s', f'rename_all_to_case knows rule names serde does not: {extra}', site)
-    # E2
-    wild = [a for a in ms[0]['arms'] if '_' in a['variants']]
-    rep.check(bool(wild) and wild[0]['body'].replace(' ', '') == inp, 'E2', 'unknown-rule-identity', 'unknown rule ⇒ input unchanged', f"an unknown rule yields `{wild[0]['body'][:50] if wild else 'nothing'}` instead of the unchanged name", site)
-    outer = [m for m in f['matches'] if any(v == 'None' for a in m['arms'] for v in a['variants'])]
-    none_arm = [a for m in outer for a in m['arms'] if a['variants'] == ['None']]
-    rep.check(bool(none_arm) and none_arm[0]['body'].replace(' ', '') == inp, 'E2', 'no-rule-identity', 'no rule ⇒ input unchanged', 'without a rename_all rule the name is not returned unchanged', site)
+    # E2: every fall-through arm (no rule / unknown rule) returns the input itself; an arm that merely forwards to a
+    # nested match (the Some(value) => match value.as_str() {..} form) is not a fall-through
+    inner_texts = [a['body'].replace(' ', '') for a in plain]
+    fall = [a for a in plain if not a['body'].lstrip().startswith('match')]
+    covers_none = any('None' in a['variants'] for a in fall)
+    covers_unknown = any('_' in a['variants'] or re.search(r'Some\s*\(\s*_\s*\)', a['pat']) for a in fall)
+    ident = all(a['body'].replace(' ', '') == inp and not a.get('guard') for a in fall)
+    rep.check(covers_unknown and ident, 'E2', 'unknown-rule-identity', 'unknown rule ⇒ input unchanged', f"an unknown rule does not yield the unchanged name: {[a['pat'] + ' => ' + a['body'][:40] for a in fall]}", site)
+    rep.check(covers_none and ident, 'E2', 'no-rule-identity', 'no rule ⇒ input unchanged', f"without a rename_all rule the name is not returned unchanged: {[a['pat'] + ' => ' + a['body'][:40] for a in fall]}", site)
     # E3 (MIR)
     prog = cg.Program(ctx.mirq('all'))
     cr = cg.CtxReach(prog)
